@@ -42,12 +42,14 @@ def gen_func():
     yield 1
 
 
-UNSUPPORTED = ["object", "function", "complex", "generator", "date", "bean"]
+UNSUPPORTED = ["object", "function", "complex", "generator", "date", "bean", "fraction", "range", "class", "module", "memoryview", "ellipsis"]
 
 
 def unsupported_value(kind):
+    import fractions
     return {"object": object(), "function": gen_func, "complex": 1 + 2j, "generator": gen_func(), "date": datetime.date(2020, 1, 2),
-            "bean": beans.Plain()}[kind]
+            "bean": beans.Plain(), "fraction": fractions.Fraction(1, 3), "range": range(3), "class": Other, "module": fractions,
+            "memoryview": memoryview(b"ab"), "ellipsis": Ellipsis}[kind]
 
 
 HANDLER_TABLES = ["none", "user", "date", "tuple", "str", "bool", "user+date", "other", "list", "dict", "int", "mylist", "float"]
@@ -269,6 +271,20 @@ def run_case(case):
             return out.bad("C20/dump-raises-%s" % type(ex).__name__, "case %r raised %r" % (case, ex))
         ref = Ref(handled, call_ignore, ign_attr, cls, own_ignore)
         why = ref.compare(value, d)
+        # dumping does not alter the ignore lists it consulted, and a second dump without the per-call list is judged on its own
+        if ign_attr in vars(cls) and list(vars(cls)[ign_attr]) != list(own_ignore):
+            out.bad("C20/dump-modifies-the-object-ignore-list", "case %r: the class attribute %s is %r after the dump, it was %r" % (case, ign_attr, vars(cls)[ign_attr], own_ignore))
+            setattr(cls, ign_attr, list(own_ignore))
+        if call_ignore and not why:
+            first_calls = list(rec.calls)
+            try:
+                d2 = jsonclass.dump(value, config=cfg, **call_kwargs)
+                why2 = Ref(handled, [], ign_attr, cls, own_ignore).compare(value, d2)
+                if why2:
+                    out.bad("C20/second-dump-depends-on-the-first", "case %r: a second dump without the per-call ignore list: %s" % (case, why2))
+            except Exception as ex:
+                out.bad("C20/dump-raises-%s" % type(ex).__name__, "case %r: second dump raised %r" % (case, ex))
+            rec.calls[:] = first_calls  # the handler-call oracle below concerns the first dump
         if why:
             kind = "ignored-attribute-appears" if "ignored attribute" in why else ("handler-not-used" if "handled type" in why else
                                                                                    ("field-set-differs" if "has keys" in why else "structure-differs"))
